@@ -64,17 +64,16 @@ fn header(p: Proc, v: Ver, m8: bool, x8: bool) -> String {
     h
 }
 
-pub fn dasm(d: &mut Option<Disassembler>, bytes: &[u8], org: usize, p: Proc, m8: bool, x8: bool, brk: bool, labeling: &str) -> Result<Result<String, String>, String> {
-    let mut img = vec![0u8; org];
-    img.extend_from_slice(bytes);
+pub fn dasm(d: &mut Option<Disassembler>, case: &Case, labeling: &str) -> Result<Result<String, String>, String> {
+    let (img, range) = case.image();
     if d.is_none() { *d = Some(Disassembler::new()); }
     let dd = d.as_mut().unwrap();
     let r = guarded(|| {
         let mut cfg = Settings::new();
-        cfg.disassembly.brk = brk;
+        cfg.disassembly.brk = case.brk;
         dd.set_config(cfg);
-        dd.set_mx(m8, x8);
-        dd.disassemble(&img, DasmRange::Range([org, img.len()]), ptype(p), labeling).map_err(|e| e.to_string())
+        dd.set_mx(case.m8, case.x8);
+        dd.disassemble(&img, range, ptype(case.p), labeling).map_err(|e| e.to_string())
     });
     if r.is_err() { *d = None; }
     r
@@ -112,8 +111,8 @@ impl Tools {
         } }
         Tools { syms, book: OperationHandbook::new().create_dasm_map(), dis: None, asm: None, ana: None }
     }
-    fn dasm(&mut self, bytes: &[u8], org: usize, p: Proc, m8: bool, x8: bool, brk: bool, labeling: &str) -> Result<Result<String, String>, String> {
-        dasm(&mut self.dis, bytes, org, p, m8, x8, brk, labeling)
+    fn dasm(&mut self, case: &Case, labeling: &str) -> Result<Result<String, String>, String> {
+        dasm(&mut self.dis, case, labeling)
     }
     fn spot(&mut self, text: String, syms: Arc<Symbols>, v: Ver, pc: usize, mx: (bool, bool)) -> Result<Vec<u8>, String> {
         if self.asm.is_none() { self.asm = Some(Assembler::new()); }
@@ -166,16 +165,52 @@ impl Tools {
     }
 }
 
+/// which `DasmRange` variant selects the range `[org, org + bytes.len())` of the image
+#[derive(Clone, Copy, PartialEq, Debug)]
+pub enum Sel { Range, All, BloadDos, BloadProdos }
+/// `bytes` is the disassembled range; the image is zeros, then `pre` (the bytes right before the range), `bytes`, `after`
 #[derive(Clone)]
-pub struct Case { p: Proc, m8: bool, x8: bool, brk: bool, org: usize, bytes: Vec<u8>, kind: &'static str }
+pub struct Case { p: Proc, m8: bool, x8: bool, brk: bool, org: usize, bytes: Vec<u8>, kind: &'static str, pre: Vec<u8>, after: Vec<u8>, sel: Sel }
 impl Case {
     fn desc(&self, idx: usize) -> String {
-        format!("idx={} kind={} proc={} mx={}{} brk={} org={:X} bytes={}", idx, self.kind, pname(self.p), self.m8 as u8, self.x8 as u8, self.brk as u8, self.org, hx(&self.bytes))
+        let mut d = format!("idx={} kind={} proc={} mx={}{} brk={} org={:X} bytes={}", idx, self.kind, pname(self.p), self.m8 as u8, self.x8 as u8, self.brk as u8, self.org, hx(&self.bytes));
+        if self.sel != Sel::Range || !self.pre.is_empty() || !self.after.is_empty() { d += &format!(" range={:?} before={} after={}", self.sel, hx(&self.pre), hx(&self.after)); }
+        d
+    }
+    /// the image bytes that follow the range (a BLOAD range lies in a zero-filled RAM image)
+    fn after_eff(&self) -> Vec<u8> {
+        let mut a = self.after.clone();
+        if matches!(self.sel, Sel::BloadDos | Sel::BloadProdos) { a.extend_from_slice(&[0, 0, 0, 0]); }
+        a
+    }
+    /// the image handed to the disassembler and the range variant
+    fn image(&self) -> (Vec<u8>, DasmRange) {
+        let beg = self.org;
+        let end = beg + self.bytes.len();
+        let mut img = vec![0u8; beg - self.pre.len()];
+        img.extend_from_slice(&self.pre);
+        img.extend_from_slice(&self.bytes);
+        img.extend_from_slice(&self.after);
+        let range = match self.sel {
+            Sel::Range => DasmRange::Range([beg, end]),
+            Sel::All => DasmRange::All,
+            Sel::BloadDos | Sel::BloadProdos => {
+                img.resize(0xC000, 0);
+                let (sa, la) = if self.sel == Sel::BloadDos { (0xaa72, 0xaa60) } else { (0xbeb9, 0xbec8) };
+                img[sa] = (beg & 0xff) as u8; img[sa + 1] = (beg >> 8) as u8;
+                img[la] = (self.bytes.len() & 0xff) as u8; img[la + 1] = (self.bytes.len() >> 8) as u8;
+                if self.sel == Sel::BloadDos { DasmRange::LastBloadDos33 } else { DasmRange::LastBloadProDos }
+            }
+        };
+        (img, range)
     }
     fn canon(&self) -> Vec<u8> {
         let mut v = vec![self.p as u8, self.m8 as u8, self.x8 as u8, self.brk as u8];
         v.extend_from_slice(&(self.org as u32).to_le_bytes());
         v.extend_from_slice(&self.bytes);
+        v.push(0xff); v.push(self.sel as u8);
+        v.extend_from_slice(&self.pre); v.push(0xfe);
+        v.extend_from_slice(&self.after);
         v
     }
 }
@@ -272,12 +307,12 @@ fn eval_case(ctx: &mut Ctx, tools: &mut Tools, idx: usize, case: &Case) {
     if pure { ctx.out.count("pure-code"); }
     let pn = pname(p);
     // ---- disassemble (real code) ----
-    let none = match tools.dasm(bytes, org, p, m8, x8, brk, "none") {
+    let none = match tools.dasm(case, "none") {
         Ok(Ok(t)) => t,
         Ok(Err(e)) => { ctx.out.oracle(false, "disassembles", &format!("c15/{}/dasm-error", pn), &format!("{} err={}", case.desc(idx), short(&e))); return; }
         Err(pn_) => { ctx.out.oracle(false, "disassembles", &format!("panic:{}", panic_site(&pn_)), &case.desc(idx)); return; }
     };
-    let all = match tools.dasm(bytes, org, p, m8, x8, brk, "all") {
+    let all = match tools.dasm(case, "all") {
         Ok(Ok(t)) => t,
         Ok(Err(e)) => { ctx.out.oracle(false, "disassembles", &format!("c15/{}/dasm-error", pn), &format!("{} labeling=all err={}", case.desc(idx), short(&e))); return; }
         Err(pn_) => { ctx.out.oracle(false, "disassembles", &format!("panic:{}", panic_site(&pn_)), &format!("{} labeling=all", case.desc(idx))); return; }
@@ -322,7 +357,9 @@ fn eval_case(ctx: &mut Ctx, tools: &mut Tools, idx: usize, case: &Case) {
                 Ok(Ok(b)) => {
                     tag = hx(b);
                     let pass = b.as_slice() == want;
-                    ctx.out.oracle(pass, "line-reassembles-to-its-span", &format!("c15/{}/reassembly-differs/op={:02X}", cn, op),
+                    // the last line of a sub-range stands for its span plus bytes that lie beyond the range
+                    let beyond = hi == end && b.len() > want.len() && b.starts_with(want) && case.after_eff().starts_with(&b[want.len()..]);
+                    ctx.out.oracle(pass, "line-reassembles-to-its-span", &if beyond { format!("c15/{}/reassembly-includes-bytes-beyond-range", cn) } else { format!("c15/{}/reassembly-differs/op={:02X}", cn, op) },
                         &format!("{} line={:?} at={:X} want={} got={}", case.desc(idx), canon_line(&g.first), lo, hx(want), hx(b)));
                 }
                 Ok(Err(_)) => {
@@ -365,7 +402,8 @@ fn eval_case(ctx: &mut Ctx, tools: &mut Tools, idx: usize, case: &Case) {
                     // counter of the assembler ran away (one signature for the whole class)
                     if gs[..k].iter().any(|g| { let c = split_cols(&g.first); c[1] == "MVN" || c[1] == "MVP" }) { after_mv = true; }
                 }
-                let sig = if after_mv { format!("c15/{}/reassembly-differs/after-block-move", cn) } else { format!("c15/{}/reassembly-differs/op={:02X}", cn, op) };
+                let beyond = !pass && b.len() > bytes.len() && b.starts_with(bytes) && case.after_eff().starts_with(&b[bytes.len()..]);
+                let sig = if beyond { format!("c15/{}/reassembly-includes-bytes-beyond-range", cn) } else if after_mv { format!("c15/{}/reassembly-differs/after-block-move", cn) } else { format!("c15/{}/reassembly-differs/op={:02X}", cn, op) };
                 ctx.out.oracle(pass, "reassembles-or-refuses", &sig,
                     &format!("{} got={} text={}", case.desc(idx), hx(&b), short(&none.lines().map(canon_line).collect::<Vec<_>>().join("/"))));
             }
@@ -378,7 +416,7 @@ fn eval_case(ctx: &mut Ctx, tools: &mut Tools, idx: usize, case: &Case) {
         }
     }
     // ---- labelled listings ("some" = what `a2kit dasm` prints, "all") ----
-    let some = match tools.dasm(bytes, org, p, m8, x8, brk, "some") {
+    let some = match tools.dasm(case, "some") {
         Ok(Ok(t)) => t,
         Ok(Err(e)) => { ctx.out.oracle(false, "disassembles", &format!("c15/{}/dasm-error", pn), &format!("{} labeling=some err={}", case.desc(idx), short(&e))); return; }
         Err(pn_) => { ctx.out.oracle(false, "disassembles", &format!("panic:{}", panic_site(&pn_)), &format!("{} labeling=some", case.desc(idx))); return; }
@@ -461,7 +499,7 @@ fn eval_case(ctx: &mut Ctx, tools: &mut Tools, idx: usize, case: &Case) {
         }
     }
     // ---- model tie ----
-    let req_tail = format!("{} {}{} {} {:X} {}", pn, m8 as u8, x8 as u8, brk as u8, org, hx(bytes));
+    let req_tail = format!("{} {}{} {} {:X} {}{}", pn, m8 as u8, x8 as u8, brk as u8, org, hx(bytes), if case.after_eff().is_empty() { String::new() } else { format!(" +{}", hx(&case.after_eff())) });
     if std::env::var("C15_NO_Q").is_err() {
         let rendered = none.lines().map(canon_line).collect::<Vec<_>>().join(";");
         ctx.out.q(&format!("c15 dasm {}", req_tail), if rendered.is_empty() { "-" } else { &rendered });
@@ -469,6 +507,10 @@ fn eval_case(ctx: &mut Ctx, tools: &mut Tools, idx: usize, case: &Case) {
         ctx.out.q(&format!("c15 spans {}", req_tail), &if spans.is_empty() { "-".to_string() } else { spans.join(",") });
         ctx.out.q(&format!("c15 rt {}", req_tail), &if per_line.is_empty() { "-".to_string() } else { per_line.join(",") });
         for (head, ans) in &lab_q { ctx.out.q(&format!("{} {}", head, req_tail), ans); }
+        if matches!(case.sel, Sel::BloadDos | Sel::BloadProdos) {
+            // observed range: first label of the "all" listing .. end of the last line (accounting passed)
+            ctx.out.q(&format!("c15 brange {} {} {:X} {:X}", if case.sel == Sel::BloadDos { "dos" } else { "prodos" }, 0xC000, org, bytes.len()), &format!("{:X},{:X}", addrs.first().copied().unwrap_or(org), end));
+        }
     }
 }
 
@@ -502,7 +544,7 @@ fn gen_cases(ctx: &Ctx, tools: &Tools) -> Vec<Case> {
                     for v in vals {
                         let mut b = vec![op];
                         b.extend(le(v, n.min(4)));
-                        cases.push(Case { p, m8: *m8, x8: *x8, brk: op == 0, org: *org, bytes: b, kind: "single" });
+                        cases.push(Case { p, m8: *m8, x8: *x8, brk: op == 0, org: *org, bytes: b, kind: "single", pre: vec![], after: vec![], sel: Sel::Range });
                     }
                 }
             }
@@ -514,7 +556,7 @@ fn gen_cases(ctx: &Ctx, tools: &Tools) -> Vec<Case> {
             let n = tools.instr_len(op, Proc::P65816, true, true).unwrap() - 1;
             for v in [0u32, 0x12, 0x1234, 0x123456, 0xFFFFFF] {
                 let mut b = vec![op]; b.extend(le(v, n));
-                cases.push(Case { p: Proc::P65816, m8: true, x8: true, brk: false, org, bytes: b, kind: "bank1" });
+                cases.push(Case { p: Proc::P65816, m8: true, x8: true, brk: false, org, bytes: b, kind: "bank1", pre: vec![], after: vec![], sel: Sel::Range });
             }
         }
     }
@@ -522,7 +564,7 @@ fn gen_cases(ctx: &Ctx, tools: &Tools) -> Vec<Case> {
     for p in PROCS { for op in 0..=255u8 {
         if let Some(n) = tools.instr_len(op, p, true, true) { if n > 1 {
             let b: Vec<u8> = std::iter::once(op).chain((0..n - 2).map(|i| 0x21 + i as u8)).collect();
-            cases.push(Case { p, m8: true, x8: true, brk: true, org: 0x300, bytes: b, kind: "truncated" });
+            cases.push(Case { p, m8: true, x8: true, brk: true, org: 0x300, bytes: b, kind: "truncated", pre: vec![], after: vec![], sel: Sel::Range });
         } }
     } }
     // (D) data runs of every recognised pattern
@@ -551,11 +593,11 @@ fn gen_cases(ctx: &Ctx, tools: &Tools) -> Vec<Case> {
             // data only starts where the disassembler does not see an instruction: lead with an invalid opcode
             // for that processor where one exists (65816: BRK with brk off)
             let lead: u8 = match p { Proc::P6502 => 0x02, Proc::P65c02 => 0x02, _ => 0x00 };
-            cases.push(Case { p, m8: true, x8: true, brk: false, org: ORGS[i % 4], bytes: pat.clone(), kind: "data" });
+            cases.push(Case { p, m8: true, x8: true, brk: false, org: ORGS[i % 4], bytes: pat.clone(), kind: "data", pre: vec![], after: vec![], sel: Sel::Range });
             let mut b = vec![lead]; b.extend_from_slice(pat);
-            cases.push(Case { p, m8: true, x8: true, brk: false, org: ORGS[(i + 1) % 4], bytes: b, kind: "data" });
+            cases.push(Case { p, m8: true, x8: true, brk: false, org: ORGS[(i + 1) % 4], bytes: b, kind: "data", pre: vec![], after: vec![], sel: Sel::Range });
             let mut b = vec![0xEA]; b.extend_from_slice(pat); b.push(0x60);
-            cases.push(Case { p, m8: true, x8: true, brk: false, org: ORGS[(i + 2) % 4], bytes: b, kind: "data" });
+            cases.push(Case { p, m8: true, x8: true, brk: false, org: ORGS[(i + 2) % 4], bytes: b, kind: "data", pre: vec![], after: vec![], sel: Sel::Range });
         }
     }
     // (W) the concrete witnesses of the three defects proved in Props/C15.lean, and a block move in front of
@@ -564,7 +606,7 @@ fn gen_cases(ctx: &Ctx, tools: &Tools) -> Vec<Case> {
         for b in [vec![0xAFu8, 0x56, 0x34, 0x12], vec![0xAF, 0x34, 0x00, 0x00], vec![0x54, 0x01, 0x02, 0x80, 0xFE],
                   vec![0x44, 0x7B, 0x28, 0x82, 0x00, 0x00], vec![0x54, 0x01, 0x02, 0x62, 0x10, 0x00], vec![0x44, 0x00, 0x00, 0xD0, 0x05, 0xEA],
                   vec![0x54, 0x01, 0x02, 0x54, 0x03, 0x04, 0x10, 0xF8]] {
-            cases.push(Case { p, m8: true, x8: true, brk: false, org: 0x300, bytes: b, kind: "witness" });
+            cases.push(Case { p, m8: true, x8: true, brk: false, org: 0x300, bytes: b, kind: "witness", pre: vec![], after: vec![], sel: Sel::Range });
         }
     }
     // (L) planted label aliases: 65802/65816 programs with labelled lines at known addresses (first line, a branch
@@ -594,7 +636,7 @@ fn gen_cases(ctx: &Ctx, tools: &Tools) -> Vec<Case> {
                         b.extend_from_slice(&[0xD0, 0xF9]);
                         b.push(if k % 2 == 0 { 0x22 } else { 0x5C }); b.extend(le(low2 | (bank2 << 16), 3));
                         b.push(0x60);
-                        cases.push(Case { p, m8, x8, brk: false, org, bytes: b, kind: "label-alias" });
+                        cases.push(Case { p, m8, x8, brk: false, org, bytes: b, kind: "label-alias", pre: vec![], after: vec![], sel: Sel::Range });
                     }
                 }
             }
@@ -609,13 +651,80 @@ fn gen_cases(ctx: &Ctx, tools: &Tools) -> Vec<Case> {
             (0x0300, vec![0xA2, 0x00, 0xBD, 0x02, 0x03, 0x9D, 0x0B, 0x03, 0xE8, 0xD0, 0xF7, 0x60, 0x6C, 0x00, 0x03]),
             (0xFFF8, vec![0xAD, 0xF8, 0xFF, 0x4C, 0xFB, 0xFF, 0xEA, 0xEA, 0xEA, 0xEA, 0x60]),
         ] {
-            cases.push(Case { p, m8: true, x8: true, brk: false, org, bytes: body.clone(), kind: "label-abs" });
+            cases.push(Case { p, m8: true, x8: true, brk: false, org, bytes: body.clone(), kind: "label-abs", pre: vec![], after: vec![], sel: Sel::Range });
             if matches!(p, Proc::P65802 | Proc::P65816) {
                 let mut b = body.clone();
                 b.extend_from_slice(&[0xAF, (org & 0xff) as u8, (org >> 8) as u8, 0x00, 0xAF, (org & 0xff) as u8, (org >> 8) as u8, 0x01,
                     0xBF, ((org + 2) & 0xff) as u8, ((org + 2) >> 8) as u8, 0xFF, 0x82, 0x00, 0x00, 0x62, 0xF0, 0xFF]);
-                cases.push(Case { p, m8: false, x8: false, brk: false, org, bytes: b, kind: "label-abs" });
+                cases.push(Case { p, m8: false, x8: false, brk: false, org, bytes: b, kind: "label-abs", pre: vec![], after: vec![], sel: Sel::Range });
             }
+        }
+    }
+    // (R) sub-ranges of a larger image (`Range([beg,end])` with `end < img.len()`, `All`, the two `LastBload` ranges): text
+    //     runs, fills, patterns, instructions and branch targets at and across both ends of the range, with the bytes
+    //     just outside chosen adversarially ($00, the opposite / same high-bit polarity, opcodes, pattern continuations)
+    {
+        let mut k = 0usize;
+        let mut push = |cases: &mut Vec<Case>, p: Proc, org: usize, pre: Vec<u8>, bytes: Vec<u8>, after: Vec<u8>, m8: bool, x8: bool| {
+            k += 1;
+            let org = if pre.len() > org { pre.len() } else { org };
+            let sel = if k % 9 == 4 && org + bytes.len() + after.len() < 0xa000 { Sel::BloadDos } else if k % 9 == 8 && org + bytes.len() + after.len() < 0xa000 { Sel::BloadProdos } else { Sel::Range };
+            cases.push(Case { p, m8, x8, brk: false, org, bytes, kind: "sub-range", pre, after, sel });
+        };
+        let texts: [&str; 7] = ["BYE", "E", "HELLO, WORLD.", "A B", "42", "Zz", "ABAB"];
+        for p in PROCS {
+            for (ti, t) in texts.iter().enumerate() {
+                for neg in [false, true] {
+                    let body: Vec<u8> = t.bytes().map(|c| if neg { c | 0x80 } else { c }).collect();
+                    let hi = if neg { 0x80u8 } else { 0 };
+                    // what precedes the text inside the range: nothing, code, an opcode invalid on the 6502 / 65C02
+                    for (pi, prefix) in [vec![], vec![0x60u8], vec![0x20, 0x58, 0xFC, 0x60], vec![0xEA, 0x02]].iter().enumerate() {
+                        let afters: Vec<Vec<u8>> = vec![vec![0x00], vec![0x45 | (hi ^ 0x80)], vec![0x45 | hi], vec![0x00, 0x00, 0x60], vec![0x20 | (hi ^ 0x80), 0x41],
+                            vec![0x02], vec![0x2E | (hi ^ 0x80)], vec![0x8D], vec![]];
+                        for (ai, after) in afters.iter().enumerate() {
+                            if !ctx.tier_thorough && (ti + pi + ai + p as usize) % 2 == 1 && ai > 1 { continue; }
+                            let mut b = prefix.clone(); b.extend_from_slice(&body);
+                            let pre: Vec<u8> = match (ti + ai) % 3 { 0 => vec![], 1 => vec![b[0]], _ => vec![0x00, body[0] ^ 0x80] };
+                            let org = [0x300usize, 0x8000, 0, 0x2001][(ti + pi + ai) % 4];
+                            push(&mut cases, p, org, pre, b, after.clone(), true, true);
+                        }
+                    }
+                }
+            }
+            // instructions whose operand lies beyond the end of the range, fills and patterns that continue beyond it or
+            // begin before it, branches to the first address after / the last address before the range
+            let shapes: Vec<(Vec<u8>, Vec<u8>, Vec<u8>)> = vec![
+                (vec![], vec![0xEA, 0xA9], vec![0x01, 0x60]), (vec![], vec![0xAD, 0x00], vec![0x03, 0x60]), (vec![], vec![0x4C], vec![0x00, 0x03]),
+                (vec![], vec![0xEA, 0xD0], vec![0xFE]), (vec![], vec![0xAF, 0x00, 0x80], vec![0x01]), (vec![], vec![0x54, 0x01], vec![0x02]),
+                (vec![], vec![0x22, 0x00], vec![0x80, 0x00]), (vec![], vec![0x82, 0x10], vec![0x00]), (vec![0xA9], vec![0x01, 0x60], vec![0xA9]),
+                (vec![0x02, 0x02], vec![0x02, 0x02, 0x02], vec![0x02, 0x02]), (vec![0x02, 0x03], vec![0x02, 0x03, 0x02, 0x03], vec![0x02, 0x03]),
+                (vec![0x01, 0x02, 0x03, 0x04], vec![0x01, 0x02, 0x03, 0x04, 0x01, 0x02, 0x03, 0x04], vec![0x01, 0x02, 0x03, 0x04]),
+                (vec![0xFF], vec![0xFF, 0xFF, 0xFF, 0xFF], vec![0xFF, 0x00]), (vec![0x00], vec![0x00, 0x00, 0x00], vec![0x00, 0x00]),
+                (vec![0xEA], vec![0xD0, 0x02, 0xEA, 0xEA], vec![0x60]), (vec![0xEA], vec![0xEA, 0xD0, 0xFC], vec![0x60]), (vec![0x60], vec![0x4C, 0x05, 0x03, 0xEA, 0x60], vec![0xEA]),
+                (vec![0xC1], vec![0x41, 0x42, 0x43], vec![0xC4]), (vec![0x41], vec![0xC1, 0xC2, 0xC3], vec![0x44]), (vec![], vec![0x02, 0x41, 0x41, 0x41], vec![0x41, 0x00]),
+            ];
+            for (si, (pre, b, after)) in shapes.iter().enumerate() {
+                for org in [0x300usize, 0xFFF0] {
+                    let (m8, x8) = if si % 2 == 0 { (true, true) } else { (false, false) };
+                    push(&mut cases, p, org, pre.clone(), b.clone(), after.clone(), m8, x8);
+                }
+            }
+            // `All` on an image that is the range
+            push(&mut cases, p, 0, vec![], vec![0x60, 0x42, 0x59, 0x45], vec![], true, true);
+            if let Some(c) = cases.last_mut() { c.sel = Sel::All; }
+        }
+        // random windows of random byte strings (code / mixtures / bytes)
+        let n_win = ctx.n(500, 8000);
+        for i in 0..n_win {
+            let mut r = rng.fork(0x5000_0000 + i as u64);
+            let p = *r.pick(&PROCS);
+            let (m8, x8) = (r.chance(60), r.chance(60));
+            let total = r.range(4, 40);
+            let whole: Vec<u8> = (0..total).map(|_| match r.below(6) { 0 => 0x00, 1 => *r.pick(b"ABEXZ .,019") | if r.chance(50) { 0x80 } else { 0 }, 2 => *r.pick(&[0x02u8, 0x60, 0xEA, 0xA9, 0xAD, 0xD0, 0x4C, 0xAF, 0x20]), _ => r.byte() }).collect();
+            let a = r.below(total.min(5));
+            let b = r.range(a + 1, total);
+            let org = match r.below(4) { 0 => 0x300, 1 => 0x8000, 2 => 0xFFF0 - r.below(8), _ => r.range(a, 0x9000) };
+            push(&mut cases, p, org, whole[..a].to_vec(), whole[a..b].to_vec(), whole[b..].to_vec(), m8, x8);
         }
     }
     // (E) random pure code (all valid instructions), random code/data mixtures, random bytes
@@ -649,7 +758,7 @@ fn gen_cases(ctx: &Ctx, tools: &Tools) -> Vec<Case> {
             let v: u32 = match r.below(5) { 0 => r.below(0x100) as u32, 1 => r.below(0x10000) as u32, 2 => *r.pick(&OPERANDS), _ => r.next() as u32 };
             b.extend(le(v, n));
         }
-        cases.push(Case { p, m8, x8, brk, org, bytes: b, kind: match style { 0 => "random-code", 1 => "random-mixture", _ => "random-bytes" } });
+        cases.push(Case { p, m8, x8, brk, org, bytes: b, kind: match style { 0 => "random-code", 1 => "random-mixture", _ => "random-bytes" }, pre: vec![], after: vec![], sel: Sel::Range });
     }
     cases
 }
@@ -668,7 +777,7 @@ pub fn run(ctx: &mut Ctx) {
             let bytes = unhx(t[4]);
             let brk = t.len() > 5;
             println!("== {} ==", spec);
-            match tools.dasm(&bytes, org, p, m8, x8, brk, "none") {
+            match tools.dasm(&Case { p, m8, x8, brk, org, bytes: bytes.clone(), kind: "explore", pre: vec![], after: vec![], sel: Sel::Range }, "none") {
                 Ok(Ok(txt)) => {
                     print!("{}", txt);
                     let full = [header(p, ver, m8, x8), txt].concat();
